@@ -217,6 +217,13 @@ def exec_adaptive(sc):
                 # remainder of 2e-8 in front of a checkpoint -- it degrades in the same way: 20 x tolerance, 65 steps)
                 v["finding"] = "KF-C01-tiny-step"
                 v["inv"] = "TOL-tiny-step"
+            elif cfg["calib"] == "none" and float(wm.get("lipschitz", 1.0)) ** (q + 1) > 2.0 and \
+                    ratio <= (K_TOL if cfg["order"] == 1 else K_TOL_SECOND_ORDER) * float(wm.get("lipschitz", 1.0)) ** (q + 1):
+                # finding predicate: the uncalibrated solver keeps the output scale at 1, so its error estimate is blind to the
+                # size of the (q+1)-th derivative, which for a problem with Lipschitz constant L grows like L^(q+1)
+                v["finding"] = "KF-C01-uncalibrated-scale"
+                v["inv"] = "TOL-uncalibrated-scale"
+                v["msg"] += f"; uncalibrated solver, L^(q+1) = {float(wm.get('lipschitz', 1.0)) ** (q + 1):.0f}"
             else:
                 # finding predicate: a solution component that has shrunk towards zero at the requested time while
                 # atol << rtol |u| along the way: every step was controlled relative to the then-current |u|, so the
